@@ -57,9 +57,16 @@ func altModfile(work string) (string, error) {
 	return mf, nil
 }
 
+var (
+	altOnce sync.Once
+	altPath string
+)
+
 func goEnvFor(work string) []string {
 	env := append([]string(nil), goEnv...)
-	if mf, err := altModfile(work); err == nil && mf != "" {
+	// written once per vcheck run: workers start concurrently and must not see it half written
+	altOnce.Do(func() { altPath, _ = altModfile(work) })
+	if mf := altPath; mf != "" {
 		env[0] = "GOFLAGS=-mod=mod -modfile=" + mf
 		env = append(env, "VERIF_MODFILE="+mf, "VERIF_REPO="+repoDir)
 	}
